@@ -201,4 +201,242 @@ theorem indicesStr_sound (s y : Bytes) (k : Nat) (hk : k ∈ indicesStr s y) :
     rw [strLength_eq_chars]
     exact ⟨by simpa using h2, by simpa [boundary] using h3⟩
 
+/-! ## ROUND 2: boundaries, stability of the characters of a substring -/
+
+theorem boundary_eq_chunkPre (s : Bytes) (k : Nat) : boundary s k = chunkPre (Utf8.chunks s) k := by
+  simp [boundary, chunkPre, Utf8.chars, List.map_take]
+
+theorem boundary_zero (s : Bytes) : boundary s 0 = 0 := by simp [boundary]
+
+theorem boundary_le (s : Bytes) (k : Nat) : boundary s k ≤ s.length := by
+  have h : s = ((Utf8.chars s).take k).flatten ++ ((Utf8.chars s).drop k).flatten := by
+    rw [← List.flatten_append, List.take_append_drop, chars_flatten]
+  have : s.length = boundary s k + ((Utf8.chars s).drop k).flatten.length := by
+    conv => lhs; rw [h]
+    simp [boundary]
+  omega
+
+theorem boundary_of_ge (s : Bytes) (k : Nat) (h : (Utf8.chars s).length ≤ k) : boundary s k = s.length := by
+  unfold boundary
+  rw [List.take_of_length_le h, chars_flatten]
+
+theorem boundary_add (s : Bytes) (i n : Nat) :
+    boundary s (i + n) = boundary s i + (((Utf8.chars s).drop i).take n).flatten.length := by
+  unfold boundary
+  rw [List.take_add, List.flatten_append, List.length_append]
+
+/-- strict monotonicity on character positions (characters are non-empty) -/
+theorem boundary_lt (s : Bytes) (i : Nat) (h : i < (Utf8.chars s).length) : boundary s i < boundary s (i + 1) := by
+  rw [boundary_add]
+  have : ((Utf8.chars s).drop i).take 1 = [(Utf8.chars s)[i]] := by
+    rw [List.drop_eq_getElem_cons h]; rfl
+  rw [this]
+  have hne := chars_ne_nil s _ (List.getElem_mem h)
+  have := List.length_pos_iff.mpr hne
+  simp; omega
+
+theorem boundary_mono (s : Bytes) {i j : Nat} (h : i ≤ j) : boundary s i ≤ boundary s j := by
+  obtain ⟨n, rfl⟩ := Nat.exists_eq_add_of_le h
+  rw [boundary_add]; omega
+
+/-- the characters of the rest after character position `i` -/
+theorem chars_drop_boundary (s : Bytes) (i : Nat) :
+    Utf8.chars (s.drop (boundary s i)) = (Utf8.chars s).drop i := by
+  rw [boundary_eq_chunkPre]
+  simp only [Utf8.chars]
+  rw [(chunks_take_drop s.length s (Nat.le_refl _) i).2, List.map_drop]
+
+/-- the characters of the part before character position `j` -/
+theorem chars_take_boundary (s : Bytes) (j : Nat) :
+    Utf8.chars (s.take (boundary s j)) = (Utf8.chars s).take j := by
+  rw [boundary_eq_chunkPre]
+  simp only [Utf8.chars]
+  rw [(chunks_take_drop s.length s (Nat.le_refl _) j).1, List.map_take]
+
+theorem boundary_drop (s : Bytes) (i n : Nat) :
+    boundary (s.drop (boundary s i)) n = boundary s (i + n) - boundary s i := by
+  rw [boundary_add]
+  have : boundary (s.drop (boundary s i)) n = (((Utf8.chars s).drop i).take n).flatten.length := by
+    rw [← chars_drop_boundary]; rfl
+  rw [this]; omega
+
+/-- STABILITY: the substring between character positions `i ≤ j`, taken alone, has exactly the
+characters number `i … j-1` of the string (same chunks, hence same count) -/
+theorem chars_substring (s : Bytes) (i j : Nat) (hij : i ≤ j) :
+    Utf8.chars ((s.drop (boundary s i)).take (boundary s j - boundary s i)) = ((Utf8.chars s).drop i).take (j - i) := by
+  have : boundary s j - boundary s i = boundary (s.drop (boundary s i)) (j - i) := by
+    rw [boundary_drop]; congr 2; omega
+  rw [this, chars_take_boundary, chars_drop_boundary]
+
+
+/-! ## `indices`, complete characterisation -/
+
+theorem isPrefixOf_length_le {y r : Bytes} (h : y.isPrefixOf r = true) : y.length ≤ r.length := by
+  obtain ⟨t, rfl⟩ := List.isPrefixOf_iff_prefix.mp h
+  simp
+
+theorem indicesFrom_complete (y : Bytes) : ∀ (cs : List Bytes) (k0 : Nat) (rest : Bytes), rest = cs.flatten →
+    ∀ k, k0 ≤ k → k - k0 < cs.length →
+      y.isPrefixOf (rest.drop ((cs.take (k - k0)).flatten.length)) = true → k ∈ indicesFrom y k0 rest cs := by
+  intro cs
+  induction cs with
+  | nil => intro k0 rest _ k _ h; simp at h
+  | cons c cs ih =>
+    intro k0 rest hrest k hk0 hlt hp
+    simp only [indicesFrom]
+    have hfit : ¬ rest.length < y.length := by
+      have := isPrefixOf_length_le hp
+      simp only [List.length_drop] at this
+      omega
+    rw [if_neg hfit]
+    simp only [List.mem_append]
+    by_cases hk : k = k0
+    · subst hk
+      left
+      simp only [Nat.sub_self, List.take_zero, List.flatten_nil, List.length_nil, List.drop_zero] at hp
+      simp [hp]
+    · right
+      have hrest' : rest.drop c.length = cs.flatten := by
+        rw [hrest, List.flatten_cons, List.drop_left]
+      apply ih (k0 + 1) (rest.drop c.length) hrest' k (by omega) (by simp only [List.length_cons] at hlt; omega)
+      have hk' : k - k0 = (k - (k0 + 1)) + 1 := by omega
+      rw [hk', List.take_succ_cons, List.flatten_cons, List.length_append, ← List.drop_drop] at hp
+      exact hp
+
+theorem mem_indicesStr_iff (s y : Bytes) (hy : y ≠ []) (k : Nat) :
+    k ∈ indicesStr s y ↔ k < (Utf8.chars s).length ∧ y.isPrefixOf (s.drop (boundary s k)) = true := by
+  constructor
+  · intro h
+    have := indicesStr_sound s y k h
+    rwa [strLength_eq_chars] at this
+  · intro ⟨h1, h2⟩
+    unfold indicesStr
+    have : y.isEmpty = false := by cases y <;> simp_all
+    simp only [this, Bool.false_eq_true, if_false]
+    exact indicesFrom_complete y (Utf8.chars s) 0 s (chars_flatten s).symm k (Nat.zero_le _) (by simpa using h1)
+      (by simpa [boundary] using h2)
+
+theorem startsFrom_length : ∀ (cs : List Bytes) (off : Nat), (startsFrom off cs).length = cs.length := by
+  intro cs
+  induction cs with
+  | nil => intro off; rfl
+  | cons c cs ih => intro off; simp [startsFrom, ih]
+
+/-- the byte offsets that are character boundaries: starts of characters, and the end -/
+theorem mem_bounds_iff (s : Bytes) (x : Nat) :
+    x ∈ starts s ++ [s.length] ↔ ∃ j, j ≤ (Utf8.chars s).length ∧ x = boundary s j := by
+  have e : starts s ++ [s.length] = offsets 0 (Utf8.chars s) := by
+    simp [offsets, starts, chars_flatten]
+  rw [e]
+  constructor
+  · intro h
+    obtain ⟨j, hj, hx⟩ := List.getElem_of_mem h
+    have hlen : (offsets 0 (Utf8.chars s)).length = (Utf8.chars s).length + 1 := by
+      simp [offsets, startsFrom_length]
+    refine ⟨j, by omega, ?_⟩
+    have := offsets_getElem (Utf8.chars s) 0 j (by omega)
+    rw [List.getElem?_eq_getElem hj, hx] at this
+    simpa [boundary] using this
+  · intro ⟨j, hj, hx⟩
+    have := offsets_getElem (Utf8.chars s) 0 j hj
+    subst hx
+    exact List.mem_of_getElem? (by simpa [boundary] using this)
+
+
+/-! ## the slices `.[k:]` and `.[:n]` -/
+
+theorem sliceFrom_eq (s : Bytes) (k : Nat) : sliceChars s (some (Int.ofNat k)) none = s.drop (boundary s k) := by
+  unfold sliceChars boundIndex byteIndex
+  simp only [Int.ofNat_eq_natCast, Int.natCast_nonneg, decide_true, if_true, Int.natAbs_natCast]
+  rw [starts_getD]
+  apply List.take_of_length_le
+  simp
+
+theorem sliceTo_eq (t : Bytes) (n : Nat) : sliceChars t none (some (Int.ofNat n)) = t.take (boundary t n) := by
+  unfold sliceChars boundIndex byteIndex
+  simp only [Int.ofNat_eq_natCast, Int.natCast_nonneg, decide_true, if_true, Int.natAbs_natCast]
+  rw [starts_getD]
+  simp
+
+theorem drop_flatten_take (cs : List Bytes) (k : Nat) :
+    cs.flatten.drop ((cs.take k).flatten.length) = (cs.drop k).flatten := by
+  conv => lhs; arg 2; rw [← List.take_append_drop k cs]
+  rw [List.flatten_append, List.drop_left]
+
+theorem drop_boundary_eq (s : Bytes) (k : Nat) : s.drop (boundary s k) = ((Utf8.chars s).drop k).flatten := by
+  unfold boundary
+  conv => lhs; arg 2; rw [← chars_flatten s]
+  exact drop_flatten_take _ _
+
+/-- `.[k:][:n]` = `.[k:k+n]` = the characters number `k … k+n-1` -/
+theorem slice_slice_eq (s : Bytes) (k n : Nat) :
+    sliceChars (sliceChars s (some (Int.ofNat k)) none) none (some (Int.ofNat n))
+      = (((Utf8.chars s).drop k).take n).flatten := by
+  rw [sliceFrom_eq, sliceTo_eq]
+  have h1 := drop_boundary_eq s k
+  have h2 : boundary (s.drop (boundary s k)) n = (((Utf8.chars s).drop k).take n).flatten.length := by
+    unfold boundary; rw [← chars_drop_boundary]; rfl
+  rw [h2, h1]
+  have e3 : ((Utf8.chars s).drop k).flatten = (((Utf8.chars s).drop k).take n).flatten ++ (((Utf8.chars s).drop k).drop n).flatten := by
+    rw [← List.flatten_append, List.take_append_drop]
+  conv => lhs; rw [e3]
+  rw [List.take_left]
+
+/-- `indices` (repaired code): `k` is reported iff the needle occurs at character position `k`
+AND ends at a character boundary -/
+theorem mem_indicesStrRepaired_iff (s y : Bytes) (hy : y ≠ []) (k : Nat) :
+    k ∈ indicesStrRepaired s y ↔
+      k < (Utf8.chars s).length ∧ y.isPrefixOf (s.drop (boundary s k)) = true ∧
+      ∃ j, j ≤ (Utf8.chars s).length ∧ boundary s k + y.length = boundary s j := by
+  unfold indicesStrRepaired
+  rw [List.mem_filter, mem_indicesStr_iff s y hy k, starts_getD, List.contains_iff_mem, mem_bounds_iff]
+  exact and_assoc
+
+/-- **`indices` at full strength** (repaired code, ALL byte strings incl. invalid UTF-8): the
+reported positions are exactly the `k` with `.[k:][:$y|length] == $y`, positions and lengths
+counted in characters -/
+theorem indices_iff_slice (s y : Bytes) (hy : y ≠ []) (k : Nat) :
+    k ∈ indicesStrRepaired s y ↔
+      sliceChars (sliceChars s (some (Int.ofNat k)) none) none (some (Int.ofNat (strLength y))) = y := by
+  rw [mem_indicesStrRepaired_iff s y hy k, slice_slice_eq, strLength_eq_chars]
+  have hylen : 0 < y.length := List.length_pos_iff.mpr hy
+  have hsplit := drop_boundary_eq s k
+  constructor
+  · intro ⟨hk, hp, j, hj, hb⟩
+    -- the needle is the substring between the boundaries k and j
+    have hkj : k < j := by
+      by_cases h : k < j
+      · exact h
+      · have := boundary_mono s (Nat.le_of_not_lt h); omega
+    have hyeq : y = (s.drop (boundary s k)).take (boundary s j - boundary s k) := by
+      have := eq_append_of_isPrefixOf hp
+      have e : boundary s j - boundary s k = y.length := by omega
+      rw [e]
+      conv => rhs; rw [this]
+      simp
+    have hchars : Utf8.chars y = ((Utf8.chars s).drop k).take (j - k) := by
+      rw [hyeq]; exact chars_substring s k j (by omega)
+    have hn : (Utf8.chars y).length = j - k := by
+      rw [hchars]; simp; omega
+    rw [hn, ← chars_substring s k j (by omega), chars_flatten, ← hyeq]
+  · intro h
+    generalize hn : (Utf8.chars y).length = n at h
+    have hk : k < (Utf8.chars s).length := by
+      by_cases hk : k < (Utf8.chars s).length
+      · exact hk
+      · rw [List.drop_eq_nil_of_le (by omega)] at h
+        simp at h; first | exact absurd h hy | exact absurd h.symm hy
+    refine ⟨hk, ?_, k + min n ((Utf8.chars s).length - k), by omega, ?_⟩
+    · rw [hsplit, List.isPrefixOf_iff_prefix]
+      have e3 : ((Utf8.chars s).drop k).flatten = (((Utf8.chars s).drop k).take n).flatten ++ (((Utf8.chars s).drop k).drop n).flatten := by
+        rw [← List.flatten_append, List.take_append_drop]
+      rw [e3, h]
+      exact List.prefix_append _ _
+    · rw [boundary_add]
+      congr 1
+      rw [← h]
+      congr 2
+      rw [List.take_eq_take_iff]
+      simp
+
 end Jaq.C13
